@@ -78,6 +78,9 @@ def _import_evo():
     # import the library once in the parent so that forked workers share it
     import evo.core.trajectory, evo.core.metrics, evo.core.sync  # noqa
     import evo.core.result, evo.core.filters, evo.core.geometry  # noqa
+    import contextlib, io
+    with contextlib.redirect_stdout(io.StringIO()):
+        import evo.tools.settings  # noqa  (prints "Initialized new ...")
     import evo.tools.file_interface  # noqa
     return evo
 
